@@ -48,7 +48,11 @@ func runC08Round(dir string, g *rand.Rand, creators, nplugins, perCreator, faili
 	if big {
 		// the store already holds more than one message can carry: every snapshot is sent in several
 		// messages (one pod, many containers: the two lists run out at different moments)
-		for i := 0; i < 100; i++ {
+		nb := 100
+		if strings.HasSuffix(tag, "r9") {
+			nb = 190 // three snapshot messages
+		}
+		for i := 0; i < nb; i++ {
 			id := fmt.Sprintf("%s-ballast%d", tag, i)
 			ctrs = append(ctrs, &api.Container{Id: id, PodSandboxId: pod.Id, Name: id, Env: []string{"PAD=" + payload(50<<10)}})
 		}
